@@ -51,47 +51,45 @@ def run(rep, index):
 
 
 def packet_identity(rep, index):
-    """family()/action() return the member looked up *by the packet's own family / action attribute* in the
-    respective enum (provenance rule on _generate_packet)."""
-    m, fn, cls = index.function("protocol_code_generator.generate.code_generator.ProtocolCodeGenerator._generate_packet")
-    src = {}
-    for st in ast.walk(fn):
-        if isinstance(st, ast.Assign) and len(st.targets) == 1 and isinstance(st.targets[0], ast.Name):
-            src[st.targets[0].id] = st.value
+    """family()/action() of every generated packet return the members named by that packet's own family / action
+    attributes: read off the files the abstractly executed generator writes for a tree whose packets all differ in
+    (family, action) and carry a uniquely named tag field."""
+    from ..genabs.driver import Session, run_program
+    from ..genabs.values import Elem
 
-    def origin(name, depth=0):
-        """Follow assignments back to (enum type name, attribute name)."""
-        v = src.get(name)
-        if v is None or depth > 6:
-            return None
-        s = ast.unparse(v)
-        return s
-    returns = []
-    for n in ast.walk(fn):
-        if isinstance(n, ast.JoinedStr):
-            lits = "".join(x.value for x in n.values if isinstance(x, ast.Constant))
-            if lits.startswith("return PacketFamily.") or lits.startswith("return PacketAction."):
-                fv = [x.value for x in n.values if isinstance(x, ast.FormattedValue)]
-                returns.append((lits, ast.unparse(fv[0]) if fv else None, n))
-    rep.count("packet identity templates", len(returns))
-    for lits, expr, node in returns:
-        which = "family" if "PacketFamily" in lits else "action"
-        # expr is like family_enum_value.python_name ; trace to <type>.get_enum_value_by_name(<attr var>)
-        base = expr.split(".")[0] if expr else None
-        o1 = origin(base) or ""
-        ok = False
-        detail = "return template %r filled from %s = %s" % (lits, expr, o1)
-        if "get_enum_value_by_name(" in o1:
-            typ_var = o1.split(".")[0]
-            arg = o1.split("get_enum_value_by_name(")[1].rstrip(")")
-            o_typ = origin(typ_var) or ""
-            o_arg = origin(arg) or ""
-            want_type = "PacketFamily" if which == "family" else "PacketAction"
-            ok = ("'%s'" % want_type in o_typ or '"%s"' % want_type in o_typ) and ("'%s'" % which in o_arg or '"%s"' % which in o_arg) \
-                and expr.endswith(".python_name")
-            detail += "; %s = %s; %s = %s" % (typ_var, o_typ, arg, o_arg)
-        rep.ob("C02.P1 packet-reports-its-declared-%s" % which, "_generate_packet %s()" % which, ok, detail, loc=index.loc(m, node))
-    rep.floor("packet identity templates", 2)
+    declared = {"tag0": ("net/client", "Fam", "Second"), "tag1": ("net/client", "Other", "Act"), "tag2": ("net/server", "Other", "Second"),
+                "tag3": ("net/server", "Fam", "Act")}
+
+    def tree():
+        fam = Elem("enum", {"name": "PacketFamily", "type": "char"}, [Elem("value", {"name": "Fam"}, text="1"), Elem("value", {"name": "Other"}, text="2")])
+        act = Elem("enum", {"name": "PacketAction", "type": "char"}, [Elem("value", {"name": "Act"}, text="1"), Elem("value", {"name": "Second"}, text="2")])
+        files = {"net": Elem("protocol", {}, [fam, act]), "net/client": Elem("protocol", {}, []), "net/server": Elem("protocol", {}, [])}
+        for tag, (d, f, a) in declared.items():
+            files[d].children.append(Elem("packet", {"family": f, "action": a}, [Elem("field", {"name": tag, "type": "char"})]))
+        return files
+
+    seen = 0
+    for o in run_program(Session(index), tree, runs=1):
+        if o.rejected:
+            raise AnalysisError("C02: the generator rejects the packet reference tree (%s at %s)" % (o.exc, o.exc_site))
+        for f in o.value[0].files:
+            tags = [t for t in declared if ("_%s" % t) in f["content"]]
+            if len(tags) != 1:
+                continue
+            d, fam_name, act_name = declared[tags[0]]
+            try:
+                tree_ = ast.parse(f["content"])
+            except SyntaxError:
+                continue  # C18.Q1's business
+            for cdef in [c for c in tree_.body if isinstance(c, ast.ClassDef)]:
+                for which, enum, want in (("family", "PacketFamily", fam_name), ("action", "PacketAction", act_name)):
+                    fns = [x for x in cdef.body if isinstance(x, ast.FunctionDef) and x.name == which]
+                    rets = [ast.unparse(r.value) for fn in fns for r in ast.walk(fn) if isinstance(r, ast.Return) and r.value is not None]
+                    seen += 1
+                    rep.ob("C02.P1 packet-reports-its-declared-%s" % which, "packet <%s %s> in %s path[%s]" % (fam_name, act_name, d, o.path()),
+                           rets == ["%s.%s" % (enum, want)], "%s() returns %s, declared %s=%r" % (which, rets, which, want))
+    rep.count("packet identity templates", seen)
+    rep.floor("packet identity templates", 2 * len(declared))
 
 
 def width_tables(rep, index):
